@@ -8,10 +8,11 @@
    independent (private per-row generator state, shared state untouched); (4) a query()
    call returns the same answers whatever calls preceded it and leaves the generator
    state alone.
-   NOT proved: the instantiation for new_build_candidates (same ownership pattern, per-thread
-   derived generator state) and for the high-memory variant (validated by repeated runs
-   under varying thread counts); numba's prange scheduling is the interleaving model's
-   assumption (atomic per-row operations). *)
+   (5) the same for utils.new_build_candidates (end of this file).
+   NOT proved: the high-memory update variant is sequential in the code (no prange) and needs
+   no schedule argument; leaf/graph update GENERATION writes private per-iteration lists
+   (validated by correspondence and repeated runs); numba's prange scheduling is the
+   interleaving model's assumption (atomic per-row operations). *)
 From Coq Require Import ZArith List Bool Lia.
 From PV Require Import Base Heap NND Par Repro Diversify C05Proofs.
 Import ListNotations.
@@ -58,3 +59,19 @@ Example C05_example :
   let t1 : list (op Z) := [(1%nat, fun a => (a + 5, 1))] in
   run Z 0 [nth 0 t0 (add 0); nth 0 t1 (add 0); nth 1 t0 (add 0)] ([10; 20; 30], 0) = run Z 0 (t0 ++ t1) ([10; 20; 30], 0).
 Proof. reflexivity. Qed.
+
+(* ---- candidate building (added): every interleaving of the prange threads of
+   utils.new_build_candidates yields the candidate arrays of the sequential model.  Thread t
+   owns the candidate rows r with r mod T = t (forward pushes guarded by i % n_threads == n,
+   reverse pushes by idx % n_threads == n) and draws every priority from its own stream
+   rng_state + t, so neither the rows nor the random numbers depend on the schedule. ---- *)
+From PV Require Import C05Nbc.
+
+Theorem C05_build_candidates_schedule_independent :
+  forall T g rng0 n c0 L,
+    (0 < T)%nat -> graph_ok g n -> cwf c0 n ->
+    merge crow4 (nbc_threads T g rng0) L ->
+    run crow4 dc4 L (crows c0, 0)
+    = (crows (fold_left (nbc_thread (Z.of_nat T) g rng0) (map Z.of_nat (seq 0 T)) c0), 0).
+Proof. exact nbc_schedule_independent. Qed.
+Print Assumptions C05_build_candidates_schedule_independent.
